@@ -407,6 +407,7 @@ Property make() {
            "biases x optional scripted-force task; mode A runs the library's OpenMP code on simgomp with 2-8 real threads released one at a time by the "
            "seeded schedule, mode B permutes work items and item->thread ids through the smp virtuals; every plan is also run with smp off. non-trivial = "
            "at least one parallel region forked (A) or permuted (B); distinct = hash of (template, team size, mode, schedule prefix)";
+  p.rule += " Later additions: a third of the metadynamics biases are set up for multiple walkers (replica files written from the bias loop).";
   p.assumptions = {"preemption only at synchronisation points (parallel-region entry, locks, barriers, single, thread end); unsynchronised conflicting accesses between those "
                    "points are found by TSan's happens-before analysis in the tsan flavour, not by the differential oracle",
                    "bitwise equality is required between the serial and the threaded evaluation"};
